@@ -75,6 +75,21 @@ OPT_VARIANTS['at_adaptive_normal'] = ['o:rate:full', 'o:rate:diag+comp']
 REJECT_RUNS = ['R', 'RRRRRRRRRRRA', 'RRRRRA']
 
 
+def add_resets(cases, seed, every, first, gap):
+    """`Chain.reset_proposals()` before one or two iterations of every `every`-th case (all families; a
+    generator of its own, so that the cases themselves stay what they are): the adaptation then restarts --
+    initial scale, window and Sivia-Skilling count measured from `start_step = max(nsteps, 1)`."""
+    rr = random.Random(seed * 977 + 13)
+    for i, c in enumerate(cases):
+        if i % every != 1 or c.get('centre'):
+            continue
+        r1 = rr.randint(*first)
+        rs = [r for r in (r1, r1 + rr.randint(*gap)) if r < c['nsteps'] - 5]
+        if rs:
+            c['resets'] = rs
+    return cases
+
+
 def is_opt(case):
     return str(case.get('variant') or '').startswith('o:')
 
@@ -635,14 +650,17 @@ def drive(case, nsteps):
     lines = header_lines(case['id'], prop, kind, nsteps, conf)
     real = []
     with CountDraws(prop, STALL_SINGLE) as cnt:      # a jump that does not return is cut off (Stall), not waited for
-        _drive_steps(ch, prop, kind, tap, nsteps, lines, real, cnt)
+        _drive_steps(ch, prop, kind, tap, nsteps, lines, real, cnt, set(case.get('resets') or ()))
     err = real[-1].get('error') if real and real[-1].get('raise') else None
     return {'lines': lines, 'real': real, 'kind': kind, 'error': err,
             'init': None, 'T': conf['T']}
 
 
-def _drive_steps(ch, prop, kind, tap, nsteps, lines, real, cnt):
+def _drive_steps(ch, prop, kind, tap, nsteps, lines, real, cnt, resets=()):
     for it in range(nsteps):
+        if it in resets:
+            ch.reset_proposals()
+            lines.append('reset')
         pre = {'raw': prop._nsteps, 'nsteps': prop.nsteps,
                'dk': prop.nsteps - prop.start_step + 1, 'jump': bool(prop._call_jump())}
         tap.calls = []
@@ -665,7 +683,7 @@ def _drive_steps(ch, prop, kind, tap, nsteps, lines, real, cnt):
             # history on an unbounded domain can run any scale up without limit); stop here
             lines.pop()
             break
-        real.append({'pre': pre, 'state': state, 'raw': prop._nsteps,
+        real.append({'pre': pre, 'state': state, 'raw': prop._nsteps, 'reset': it in resets,
                      'acc': bool(ch.acceptance[-1]['accepted']),
                      'ar': float(ch.acceptance['acceptance_ratio'][-1])})
 
@@ -802,8 +820,10 @@ def compare(case, res, mlines):
             for j, (a, b) in enumerate(zip(rv, mv)):
                 if not _close(a, b, scale):
                     return {'step': i, 'why': 'field %s[%d]: model %.17g real %.17g' % (name, j, float(b), a)}
-        # which steps changed, and which way
-        if prev_m is not None:
+        # which steps changed, and which way (not across a reset: both sides jump back to the initial state)
+        if r.get('reset'):
+            stats['resets'] = stats.get('resets', 0) + 1
+        if prev_m is not None and not r.get('reset'):
             m_changed = any(mf[k] != prev_m[k] for k in mf if k != 'scale')
             r_changed = any(rf[k] != prev_r[k] for k in rf if k != 'scale')
             if m_changed != r_changed:
@@ -892,7 +912,7 @@ def gen_corr_cases(seed, tier):
                 for pat in pats:
                     add(fam, var, pat, opts=gen_opts(fam, tag, rng, wide_decay=True), nmin=2,
                         sharp=rng.choice([1e-4, 1e-9]) if pat == 'peak' else None)
-    return cases
+    return add_resets(cases, seed, 3, (8, 40), (15, 80))
 
 
 def opt_coverage(cases):
@@ -1126,9 +1146,14 @@ def usability_run(case):
         ss_bound = max(float(c0.max()), conf['max_cov']) ** (0.5 if conf['diag'] else 1.0) * (1 + 1e-9)
     with CountDraws(prop, STALL_SINGLE) as cnt:
         block = 0
+        resets = set(case.get('resets') or ())
+        out['resets'] = 0
         for it in range(nsteps):
             cnt['jump'] = 0
             n0 = cnt['n']
+            if it in resets:
+                ch.reset_proposals()                     # the adaptation starts again from the initial scale
+                out['resets'] += 1
             try:
                 ch.step()
             except Stall as e:
@@ -1368,7 +1393,7 @@ def gen_usability_cases(seed, tier, full=False):
                  'beta': 1.0, 'start': 'corner', 'nsteps': 60}
             c['id'] = 'use-%d' % len(cases)
             cases.append(c)
-    return cases
+    return add_resets(cases, seed, 4, (20, 60), (40, 150))
 
 
 def _usability_worker(case):
@@ -1428,6 +1453,8 @@ def _usability_collect(cases, outs):
     findings = {}
     cov = {'runs': len(outs), 'steps': 0, 'max_draws_per_jump': 0, 'families': {}, 'targets': {},
            'optional_arguments': opt_coverage(cases), 'rejected_steps': sum(o['steps'] - o['accepted'] for o in outs),
+           'adaptation_resets': sum(o.get('resets', 0) for o in outs),
+           'runs_with_resets': sum(1 for o in outs if o.get('resets')),
            'needle_widths': sorted({c.get('sharp', 1e-4) for c in cases if c['model'] == 'peak'}),
            'durations': sorted({c['T'] for c in cases}), 'betas': sorted({c['beta'] for c in cases}),
            'starts': sorted({c.get('start', 'interior') for c in cases}), 'max_draws_by_family': {}}
@@ -1483,9 +1510,23 @@ def direction_run(case):
     if case.get('roundtrip'):
         rt_at = {k * (st0 + max(T // 2, 1)), k * (st0 + T - 1) + 2} if kind != 'ss' else {case['nsteps'] // 2}
     out['roundtrips'] = 0
+    resets = set(case.get('resets') or ())
+    out['resets'] = 0
+    since = {'steps': 0, 'updates': 0}            # since the last reset
     with CountDraws(prop, STALL_SINGLE) as cnt:
         for it in range(case['nsteps']):
             cnt['jump'] = 0
+            if it in resets:
+                # the adaptation starts again: initial scale, and the window / the Sivia-Skilling count measured
+                # from start_step = max(nsteps, 1) with nsteps = it // k; the oracle applies from here on
+                ch.reset_proposals()
+                out['resets'] += 1
+                st0 = max(it // k, 1)
+                init = prev = read_state(prop, kind)
+                prev_bytes = scale_bytes(prop, kind)
+                frozen_bytes = None
+                n_acc = 0
+                since = {'steps': 0, 'updates': 0}
             if it in rt_at:
                 prop.set_state(prop.state)
                 out['roundtrips'] += 1
@@ -1496,13 +1537,14 @@ def direction_run(case):
                     break
             dk = prop.nsteps - prop.start_step + 1
             jumped = bool(prop._call_jump())
-            n_iter = prop.nsteps - (prop.start_step - 1) + 1
+            n_iter = it // k - (st0 - 1) + 1         # Sivia-Skilling: counted from the configured / reset start step
             try:
                 ch.step()
             except (Stall, Exception) as e:              # noqa: BLE001 - usability is C14's subject
                 out['cut'] = repr(e)[:120]
                 break
             out['steps'] += 1
+            since['steps'] += 1
             cur = read_state(prop, kind)
             cur_bytes = scale_bytes(prop, kind)
             changed = cur_bytes != prev_bytes
@@ -1511,6 +1553,7 @@ def direction_run(case):
             n_acc += acc
             if changed:
                 out['updates'] += 1
+                since['updates'] += 1
             if changed and not jumped:
                 findings.append(('update-without-jump:' + fam,
                                  '%s: adaptive state changed at iteration %d although the proposal did not jump '
@@ -1522,7 +1565,7 @@ def direction_run(case):
                 # iteration k (start_step + T - 1)
                 if changed and not k * (st0 + first - 1) <= it < k * (st0 + T - 1):
                     findings.append(('adapts-outside-configured-window:' + fam,
-                                     '%s: scale attributes changed at iteration %d; configured start_step %d, '
+                                     '%s: scale attributes changed at iteration %d; start_step %d (as configured / set by the last reset), '
                                      'adaptation_duration %d, jump_interval %d: the window is iterations %d..%d' % (
                                          fam, it, st0, T, k, k * (st0 + first - 1), k * (st0 + T - 1) - 1)))
                     break
@@ -1569,8 +1612,8 @@ def direction_run(case):
                     break
             prev, prev_bytes = cur, cur_bytes
     # the net effect of a sustained one-sided history
-    one_sided = n_acc in (0, out['steps'])
-    if not findings and pat in ('A', 'R') and one_sided and out['updates'] > 0 and 'cut' not in out:
+    one_sided = n_acc in (0, since['steps'])
+    if not findings and pat in ('A', 'R') and one_sided and since['updates'] > 0 and 'cut' not in out:
         f = DIRECTION_FIELD[kind]
         widen = n_acc > 0
         sgn =(+1 if widen else -1) * (-1 if kind == 'vmf' else 1)
@@ -1581,13 +1624,13 @@ def direction_run(case):
                     findings.append(('wrong-direction:' + fam,
                                      '%s: after an always-%s history %s[%d] went from %.6g to %.6g' % (
                                          fam, 'accepted' if widen else 'rejected', f, j, b, a)))
-    if not findings and pat == 'R' and n_acc == 0 and kind == 'ss' and 'cut' not in out and out['steps'] >= 20:
+    if not findings and pat == 'R' and n_acc == 0 and kind == 'ss' and 'cut' not in out and since['steps'] >= 20:
         if all(a == b for a, b in zip(prev['vals'], init['vals'])):
             findings.append(('ss-cap-blocks-narrowing:' + fam,
                              '%s: %d always-rejected steps (rate 0 < target %.3g) left the scale at %s; '
                              'max_std=%.4g: the cap test `alpha*std.max() <= max_std` also blocks narrowing '
                              'when the scale is above max_std/alpha' % (
-                                 fam, out['steps'], xi, ['%.4g' % v for v in init['vals'][:3]], prop.max_std)))
+                                 fam, since['steps'], xi, ['%.4g' % v for v in init['vals'][:3]], prop.max_std)))
     out['findings'] = findings
     return out
 
@@ -1686,7 +1729,7 @@ def gen_direction_cases(seed, tier, full=False):
          'k': 1, 'seed': 4242, 'model': 'R', 'beta': 1.0, 'nsteps': 400, 'doms': {'x0': [0.0, 0.1]}}
     c['id'] = 'dir-%d' % len(cases)
     cases.append(c)
-    return cases
+    return add_resets(cases, seed, 3, (20, 60), (40, 150))
 
 
 def _direction_worker(case):
@@ -1726,6 +1769,8 @@ def _direction_collect(seen, outs):
     cov = {'runs': len(outs), 'steps': 0, 'updates': 0, 'post_window_steps': 0, 'families': {},
            'cut_short': 0, 'own_history_probes': len(seen),
            'state_round_trips': sum(o.get('roundtrips', 0) for o in outs),
+           'adaptation_resets': sum(o.get('resets', 0) for o in outs),
+           'runs_with_resets': sum(1 for o in outs if o.get('resets')),
            'optional_arguments': opt_coverage([o['case'] for o in outs]),
            'histories': sorted({o['case']['model'] for o in outs})}
     for o in outs:
